@@ -1,4 +1,5 @@
 import RgVerif.Lemmas.DecodeUtf8
+import RgVerif.Lemmas.DecodeSjis
 /-
 C17 — transcoded input is searched as its UTF-8 equivalent.
 Model: `RgVerif.Decode` (searcher/mod.rs transcoding detour, hiargs encoding mode, encoding_rs_io's
@@ -86,6 +87,13 @@ theorem none_is_identity (M : Enc → Machine) (chunks : List Bytes) :
   refine ⟨?_, ?_, rfl⟩
   · simp [readerOutput, cfgOfMode, plan, dropBytes]
   · simp [sliceSearched, sliceNeedsTranscoding, cfgOfMode]
+
+/-- `plan` is encoding_rs_io's `detect` under the flags the searcher fixes (`utf8_passthru(true)`,
+`bom_override(true)`; both source-anchored constants). -/
+theorem plan_is_ripgrep_config (c : Cfg) (first3 : Bytes) :
+    plan c first3 = planGeneral utf8Passthru bomOverride c first3 := by
+  unfold plan planGeneral
+  cases c.bomSniffing <;> simp <;> (split <;> simp_all)
 
 /-! ### A mark overrides a label -/
 
@@ -279,6 +287,33 @@ theorem final_flush_partial (room : Nat) (flush : Bytes) (h : 4 ≤ room ∨ flu
     · omega
     · exact List.take_of_length_le h
   · rfl
+
+/-- The streaming Shift_JIS decoder (pending lead byte, pointer arithmetic, user-defined range, an ASCII
+byte after an unpaired lead is kept) implements the whole-string reference, for every index table. -/
+theorem sjis_implements (other : Nat → Bytes → Bytes) (id : Nat) (idx : Nat → Option Nat)
+    (h : other id = transcodeSjis idx) : Implements other (.other id) (sjisMachine idx) := by
+  intro bs _
+  rw [sjis_decode_eq]
+  simp [transcode, ownMark, h]
+
+/-- Every decoder the check exercises is a proven machine: UTF-16LE/BE, UTF-8, windows-1252, Shift_JIS
+(index jis0208 is data). -/
+theorem C17_all_modelled (c : Cfg) (chunks : List Bytes)
+    (hb : ∀ b ∈ chunks.flatten, b < 256) (hg : c17Guard c chunks.flatten = true) :
+    readerOutput c (machines utf8Machine otherMachine) chunks = searched otherSpec c chunks.flatten := by
+  refine C17 otherSpec utf8Machine otherMachine (utf8_implements _) (fun k => ?_) c chunks hb hg
+  match k with
+  | 0 =>
+    intro bs _
+    show (tableMachine win1252).decode [bs] = _
+    rw [table_decode_eq]
+    simp [transcode, ownMark, otherSpec, transcode1252]
+  | 1 => exact sjis_implements otherSpec 1 Sjis.index rfl
+  | n + 2 =>
+    intro bs _
+    show (tableMachine _root_.id).decode [bs] = _
+    rw [table_decode_eq]
+    simp [transcode, ownMark, otherSpec]
 
 /-- Non-vacuity of the guard: a UTF-16LE file with mark, an astral character, a lone surrogate and an odd
 byte count; a UTF-8 file with mark and valid content; a label without mark. -/
